@@ -21,8 +21,8 @@ AUDIT_FILES = ["ScoresVerif/Lemmas/Quad.lean", "ScoresVerif/Lemmas/Bridge.lean",
                "ScoresVerif/Driver/C10.lean", "ScoresVerif/Driver/C10Spec.lean"]
 LEVEL = "proof"
 TRUSTED = ["Spec.Quad.integral as the meaning of the integral: open 3-point Newton-Cotes (Milne) rule on every cell of the "
-           "kink-complete grid, exact for piecewise cubics, additive over cells (mathematical fact, not bridged to "
-           "Mathlib's intervalIntegral)",
+           "kink-complete grid — PROVED equal to Mathlib's Lebesgue interval integral for integrands that are cubic on "
+           "each open cell (Lemmas/Bridge.lean, Props/C10Bridge.lean: tw_*_{rect,trap}_eq_lebesgue); no longer a trusted fact",
            "hand model of _auxiliary_funcs (validation, end-point replacement over the batch, xarray min/max skipna, "
            "Python builtin min/max) is tied by differential testing only",
            "the frame of the public functions (gather_dimensions, apply_weights, mean) is outside C10: scores are compared "
@@ -49,7 +49,7 @@ MANIFEST = dict(
          "partition-of-unity / weight-one / non-negativity relations between implementation runs, scalar vs array vs mixed end points.",
     note="Trusted: Lean kernel; propext/Classical.choice/Quot.sound; py2lean translator; SV.Fl (IEEE minus rounding, overflow, signed "
          "zero); the integral is Spec.Quad.integral = open 3-point Newton-Cotes rule on each cell of the kink-complete grid (exact "
-         "for piecewise cubics; not bridged to Mathlib's intervalIntegral). Modelled and only compared (not proved): _auxiliary_funcs "
+         "for piecewise cubics) and is proved equal to Mathlib's intervalIntegral of weight x elementary score (Props/C10Bridge.lean). Modelled and only compared (not proved): _auxiliary_funcs "
          "(validation, replacement of +-inf by min/max(data, other end) -+ 1 over the batch, array / mixed end points) - the "
          "theorems hold for ANY finite replacement beyond the two data points; that the replacement is beyond the data is "
          "proved for the hand model of the rectangular branch (endpoint_replacement_model_rect) and checked by the differential "
